@@ -72,3 +72,15 @@ Definition pbind {A B} (r : pres A) (some : A -> pres B) (none : pres B) (exn : 
                          where t is the content of data/charmaps/<NAME> decoded as UTF-8;
    IconvCodec name     = iconv_encoding(name): encode / decode through lib.iconv with that charset name *)
 Inductive codecinfo := CharmapCodec (name table : list N) | IconvCodec (name : list N).
+
+(* the model's crash kinds as results of a translated function (used by Proofs/IconvSrc.v, Proofs/EncodingsSrc.v to
+   state the ties; the translator never emits it) *)
+Definition of_crash {A} (c : crash_kind) : pres A :=
+  match c with
+  | CAssertion => PAssert
+  | COutOfFuel => PFuel
+  | COSError => PRaise POSError
+  | CIndexError => PRaise PIndexError
+  | CNotImplemented => PRaise PNotImplementedError
+  | c => PRaise (PForeign c)
+  end.
